@@ -672,6 +672,62 @@ func checkHopCounts(c *Ctx) {
 	}
 	fn := core.FuncName(f)
 	n := 0
+	appendBlocks := map[*ssa.BasicBlock]bool{}
+	var appendCalls []*ssa.Call
+	defer func() {
+		// every run contributes a count: no trip through the loop over the runs gets around every append of a count (a
+		// `continue` in front of it). Leaving runs out makes the list shorter than the runs and, when all are left out, empty:
+		// the average becomes 0/0 and the document no longer serialises. (Counts may be sorted into several lists.)
+		done := map[*ssa.BasicBlock]bool{}
+		for _, call := range appendCalls {
+			loop := innermostLoop(f, call.Block())
+			if loop == nil {
+				continue
+			}
+			var header *ssa.BasicBlock
+			for h := range loop {
+				all := true
+				for x := range loop {
+					if !h.Dominates(x) {
+						all = false
+					}
+				}
+				if all {
+					header = h
+				}
+			}
+			if header == nil || done[header] {
+				continue
+			}
+			done[header] = true
+			// a trip: from the header through the loop back to the header; can it avoid every append block?
+			skip := false
+			seen := map[*ssa.BasicBlock]bool{}
+			var walk func(x *ssa.BasicBlock)
+			walk = func(x *ssa.BasicBlock) {
+				if seen[x] || !loop[x] || appendBlocks[x] || skip {
+					return
+				}
+				seen[x] = true
+				for _, sc := range x.Succs {
+					if sc == header {
+						skip = true
+						return
+					}
+					walk(sc)
+				}
+			}
+			if !appendBlocks[header] {
+				seen[header] = true
+				for _, sc := range header.Succs {
+					if loop[sc] {
+						walk(sc)
+					}
+				}
+			}
+			R.Check(!skip, "R16.7", fn+"#every-run-counted", call.Pos(), fn, "every trip through the loop over the runs appends that run's hop count", "some trips through the loop over the runs skip the append of the hop count: the statistics are computed over fewer values than there are runs, and over none when every run is skipped (average 0/0 = NaN, minimum and maximum 0, and the document no longer serialises)")
+		}
+	}()
 	for _, b := range f.Blocks {
 		for _, in := range b.Instrs {
 			call, ok := in.(*ssa.Call)
@@ -689,34 +745,8 @@ func checkHopCounts(c *Ctx) {
 			if bt, ok := sl.Elem().Underlying().(*types.Basic); !ok || bt.Kind() != types.Int {
 				continue
 			}
-			// every run contributes its count: the append lies on every trip through the loop over the runs (no `continue`
-			// around it). Leaving runs out makes the list shorter than the runs and, when all are left out, empty: the average
-			// becomes 0/0 and the document no longer serialises
-			if loop := innermostLoop(f, b); loop != nil {
-				var header *ssa.BasicBlock
-				for h := range loop {
-					all := true
-					for x := range loop {
-						if !h.Dominates(x) {
-							all = false
-						}
-					}
-					if all {
-						header = h
-					}
-				}
-				every := header != nil
-				if header != nil {
-					for t := range loop {
-						for _, sc := range t.Succs {
-							if sc == header && !b.Dominates(t) {
-								every = false
-							}
-						}
-					}
-				}
-				R.Check(every, "R16.7", fn+"#every-run-counted", call.Pos(), fn, "every trip through the loop over the runs appends that run's hop count", "some trips through the loop over the runs skip the append of the hop count: the statistics are computed over fewer values than there are runs, and over none when every run is skipped (average 0/0 = NaN, minimum and maximum 0, and the document no longer serialises)")
-			}
+			appendBlocks[b] = true
+			appendCalls = append(appendCalls, call)
 			for _, ip := range InlinedPathsTo(c.P, f, b, inlineOpts{pkg: core.FuncPkg(f), stop: hasLoop}) {
 				for _, ev := range ip.Events {
 					if ev.Kind != "append" || ev.Instr != ssa.Instruction(call) && !stores(ev.Instr, call) || len(ev.Elems) != 1 {
